@@ -280,6 +280,9 @@ class Session:
             self.obs.append(("reject",))
             self.ended = self.refused = True
             self.refusal = (idx, type(e).__name__)
+            if not (isinstance(e, ValueError) and refusal_expected(self.cfg, None, op)):
+                self.problems.append((f"the SDK refused operation {list(op)} of a within-budget program "
+                                      f"({type(e).__name__})", idx))
             return self.obs[-1]
         except Exception as e:  # anything else is outside what the SDK may do to a live handle
             self.obs.append(("exc", type(e).__name__))
@@ -368,17 +371,14 @@ def run_program(repo, cfg, ops):
 
 # ------------------------------------------------------------------ input classes
 def refusal_expected(cfg, s_ids, op):
-    """NV, several pairs kept at once: _create_ent_qubits asserts that IDs 0..n-1 are unused
-    (documented limitation, the SDK builds nothing).  Not an allocation fault."""
-    return op[0] == "keep" and cfg.nv and op[1] >= 2 and any(v < op[1] for v in s_ids)
+    """the only refusal a within-budget host may see: misuse of the API — sequential=True
+    for more than one pair without a post routine (ValueError)"""
+    return op[0] == "keep" and keep_fields(op)[4] and op[1] >= 2
 
 
 def class_key(cfg, s, op):
-    """key of the recorded finding class an op belongs to (host-observable condition), or None"""
-    if op[0] == "g2" and cfg.transp:
-        a, b = s.hid(op[1]), s.hid(op[2])
-        if a != 0 and b != 0 and 0 not in s.ids():
-            return "C09:nv-transpiler-carbon-gate-borrows-unallocated-electron"
+    """key of the recorded finding class an op belongs to (host-observable condition), or None.
+    No class is recorded at present: every defect found so far is repaired."""
     return None
 
 
@@ -402,11 +402,7 @@ def gen_program(repo, cfg, rng, max_len, want_refusal=False):
                 # sequential without a post routine: one pair is accepted, more are refused (ValueError)
                 sq = rng.random() < (0.3 if n == 1 else (0.04 if want_refusal else 0.0))
                 op = ("keep", n, rng.random() < 0.5, rng.random() < 0.5, bells(n), sq)
-                if refusal_expected(cfg, s.ids(), op):
-                    if want_refusal:
-                        cand.append((op, 0.3))
-                else:
-                    cand.append((op, 1.2 / n))
+                cand.append((op, 1.2 / n))   # (sq with n > 1 is refused: only drawn with want_refusal)
                 body = rng.choice(BODIES)
                 if body == "keep" and cfg.single_comm and n > 1:
                     body = "free"
